@@ -3,7 +3,7 @@
    and that non-output variables keep their values; the mpn overlap theorems are proved on the C
    loops over a shared memory.  The tie to the code is the exhaustive alias-partition harness. *)
 From Coq Require Import ZArith List Bool.
-From Mpir Require Import Word Limbs MpnBasicDefs MemDefs MemProofs AliasDefs AliasProofs.
+From Mpir Require Import HeapDefs HeapProofs Word Limbs MpnBasicDefs MemDefs MemProofs AliasDefs AliasProofs.
 Import ListNotations.
 Local Open Scope Z_scope.
 
@@ -57,6 +57,26 @@ Proof.
   - exact (proj1 (copyd_mem_overlap m rp up n H)).
 Qed.
 Print Assumptions C05_mpn_copy_overlap.
+
+
+(* mpz_add / mpz_sub as coded (mpz/aors.h, mpz/realloc.c) on a heap of blocks where a reallocation moves the block and
+   invalidates the old one: for EVERY alias pattern among w, u, v (any of them the same variable) the call never touches an
+   invalid block, leaves a well-formed state, puts the exact sum / difference into w and changes no other variable *)
+Theorem C05_heap_aors : forall dom sub st w u v, st_wf dom st -> In w dom -> In u dom -> In v dom ->
+  exists st', mpz_aors sub st w u v = Some st' /\ st_wf dom st'
+    /\ value_of st' w = (if sub then value_of st u - value_of st v else value_of st u + value_of st v)
+    /\ (forall x, In x dom -> x <> w -> value_of st' x = value_of st x).
+Proof. exact mpz_aors_safe_correct. Qed.
+Print Assumptions C05_heap_aors.
+
+(* the order of the statements matters: loading the operand pointers BEFORE the reallocation (what the comment in aors.h
+   warns against) reads a freed block as soon as the destination is also a source and has no spare limb *)
+Theorem C05_stale_pointer_is_wrong :
+  st_wf [0; 1; 2]%nat tight /\ mpz_aors_stale false tight 0 0 1 = None /\ mpz_aors_stale_src false tight 0 0 1 = None
+  /\ option_map obs (mpz_aors false tight 0 0 1) = Some [B * B - 1 - 3; -3; 0]
+  /\ option_map (st_wfb [0; 1; 2]%nat) (mpz_aors false tight 0 0 1) = Some true.
+Proof. exact mpz_aors_stale_wrong. Qed.
+Print Assumptions C05_stale_pointer_is_wrong.
 
 Example C05_nonvacuous :
   call1 (fun l => nth 0 l 0 + nth 1 l 0) (fun k => Z.of_nat k + 5) 1 [1%nat; 1%nat] 1%nat = 12
